@@ -85,17 +85,8 @@ fn run_g<C: Codec>(c: &Case, trace: bool) -> RunOut {
     if let Fe::Panic(m) | Fe::Stuck(m) = &pr.fe {
         check("P", pr.fe.kind(), format!("PollPacket on {:?}: {m}", crate::ast::Bs(stream.to_vec())), &mut out);
     }
-    for v in ar.sim_violations.iter().chain(pr.sim_violations.iter()) {
-        check("AP", "pending-without-transport", v.clone(), &mut out);
-    }
-    // the poll decoder never asks for more than the declared frame (buffer bound)
-    if let Ok((h, rl)) = crate::spec::ref_frame(&stream) {
-        for (pos, cap) in &pr.offers {
-            if *pos >= h && pos + cap > h + rl {
-                check("P", "over-read", format!("read at {pos} with capacity {cap}, frame ends at {}", h + rl), &mut out);
-                break;
-            }
-        }
+    for v in ar.sim_violations.iter().chain(pr.sim_violations.iter()).filter(|v| v.contains(crate::sim::LOST_WAKE)) {
+        check("AP", "hang", v.clone(), &mut out);
     }
     // bare header entry points
     match guarded(|| C::header_decode(&stream)) {
